@@ -84,7 +84,19 @@ func genPositionsWalk(r *rand.Rand, n int) []Step {
 	nextLev, nextPerp := 1, 1
 	for i := 0; i < n; i++ {
 		u := pick(r, users...)
-		switch r.Intn(17) {
+		switch r.Intn(18) {
+		case 17: // governance moves a risk parameter while positions are open (a raised safety factor makes many positions
+			// liquidatable at once; a lowered one re-admits them), then a bot looks at everybody
+			if r.Intn(2) == 0 {
+				st = append(st, Step{"a": "govParam", "module": "leveragelp", "field": "SafetyFactor", "value": pick(r, "1.1", "1.3", "1.6", "2")})
+			} else {
+				st = append(st, Step{"a": "govParam", "module": "perpetual", "field": "SafetyFactor", "value": pick(r, "1.025", "1.05", "1.15", "1.3")})
+			}
+			var all []any
+			for _, w := range users {
+				all = append(all, []any{w, float64(1 + r.Intn(nextLev+nextPerp))})
+			}
+			st = append(st, Step{"a": "block", "dt": float64(5)}, closeLists(r, pick(r, "levClosePositions", "perpClosePositions"), all, "liq", "sl"))
 		case 16: // stress: the market moves against the usual leverage until positions sit around the safety factor, nobody liquidates,
 			// and the OWNERS act on them (tiny top-ups with leverage 0, consolidating re-opens, partial closes); then the market recovers
 			down := r.Intn(2) == 0
